@@ -47,7 +47,7 @@ def run(ctx):
             r.check('%s:same-channel' % fnp, all(e.on == row['on'] for e in ems), site, built=[e.on for e in ems], expected=row['on'])
             snaps = {S.show(e.lhs): S.show(e.term) for e in events if e.kind == 'snapshot'}
             body = ems[1].raw_args[1].replace('std::slice::len(', '').rstrip(')')
-            r.eq('%s:header' % fnp, [ems[1].raw_args[0], ems[1].raw_args[1], ems[1].raw_args[2], snaps.get(body)],
+            r.eq('%s:header' % fnp, [ems[1].raw_args[0], ems[1].raw_args[1], ems[1].raw_args[2], snaps.get(body, body)],
                  ['amq_protocol::protocol::basic::Publish::get_class_id()', 'std::slice::len(%s)' % body, 'publish.properties', 'publish.body'], site,
                  why="header carries Basic's class id, the whole body's length and the given properties")
             r.check('%s:order' % fnp, all(S.dominates(ems[0].ev, e.ev) or ems[0].ev.idx < e.ev.idx for e in ems[1:]) and ems[1].ev.idx < ems[2].ev.idx, site)
@@ -66,8 +66,8 @@ def run(ctx):
         site = ctx.site(SC)
         hdr = H0 + 'send_content_header(self.handle, class_id, std::slice::len(content), properties)'
         for i, x in enumerate(rows):
-            eff = [e for e in x.effects if not e.startswith('std::slice::')]
-            r.check('row%d:header-first' % i, eff and eff[0] == hdr and eff[1] == 'loop {', site, built=eff[:2], expected=[hdr, 'loop {'])
+            eff = [e for e in x.effects if e.startswith(H0) or e == 'loop {']  # sends and the chunk loop, in order
+            r.check('row%d:header-first' % i, eff[:2] == [hdr, 'loop {'], site, built=eff[:2], expected=[hdr, 'loop {'])
         evs, _ = ctx.events(SC)
         tr = [e for e in evs if e.kind == 'try']
         r.check('errors-propagated', len(tr) == 3, site, built=[S.show(e.term)[:80] for e in tr], expected='every send followed by `?`')
@@ -84,23 +84,27 @@ def run(ctx):
         rows = P.table(ctx, SC, ['self', 'content', 'class_id', 'properties'])
         site = ctx.site(SC)
         M = 'self.frame_max'
-        LEN = 'std::slice::len(content)'
+        # the cursor over the body: the `content` parameter itself or a local that starts as `content`
+        import re
+        cur = [m.group(1) for m in (re.match(r'^let (\$m\d+) = content$', e) for e in (rows[0].effects if rows else [])) if m]
+        CUR = cur[0] if cur else 'content'
+        LEN = 'std::slice::len(%s)' % CUR
         # canonical comparisons: `len > M` is (M < len) holding, `len >= M` is (len < M) failing
         big = [x for x in rows if x.conds and x.conds[0] in (('(%s < %s)' % (M, LEN), True), ('(%s < %s)' % (LEN, M), False))]
         small = [x for x in rows if x.conds and x.conds[0] in (('(%s < %s)' % (M, LEN), False), ('(%s < %s)' % (LEN, M), True))]
         if not r.check('rows', len(rows) == 3 and len(big) == 1 and len(small) == 2, site, built=[x.cond_strs() for x in rows], expected='loop while len > M (or >=); then tail / no tail'):
             return
-        eff = [e for e in big[0].effects if not e.startswith('std::slice::')]
+        eff = [e for e in big[0].effects if not e.startswith('std::slice::') and not e.startswith('io_loop::channel_handle::ChannelHandle::channel_id(')]
         i0 = eff.index('loop {')
-        body = eff[i0 + 1:]
-        want = [H0 + 'send_content_body(self.handle, content[std::ops::RangeTo{end: %s}])' % M, 'content = content[std::ops::RangeFrom{start: %s}]' % M, '} next-iteration']
+        body = [e for e in eff[i0 + 1:] if not e.startswith('let $s')]  # `let $sN = ..` keeps a value read before the cursor moved
+        want = [H0 + 'send_content_body(self.handle, %s[std::ops::RangeTo{end: %s}])' % (CUR, M), '%s = %s[std::ops::RangeFrom{start: %s}]' % (CUR, CUR, M), '} next-iteration']
         r.eq('loop-body', body, want, site, why='the chunk sent and the bytes skipped must be the same M = frame_max - overhead, or bytes are lost / duplicated / frames too long')
         r.check('loop-continues', big[0].done == 'iterate', site)
-        tail = [x for x in small if ('is_empty(content)', False) in x.conds]
-        none = [x for x in small if ('is_empty(content)', True) in x.conds]
+        tail = [x for x in small if ('is_empty(%s)' % CUR, False) in x.conds]
+        none = [x for x in small if ('is_empty(%s)' % CUR, True) in x.conds]
         if r.check('tail-rows', len(tail) == 1 and len(none) == 1, site, built=[x.cond_strs() for x in small]):
             te = [e for e in tail[0].effects if e.startswith(H0 + 'send_content_body')]
-            r.eq('tail-sent', te, [H0 + 'send_content_body(self.handle, content)'], site, why='the final partial chunk')
+            r.eq('tail-sent', te, [H0 + 'send_content_body(self.handle, %s)' % CUR], site, why='the final partial chunk')
             r.check('no-empty-frame', not [e for e in none[0].effects if 'send_content_body' in e], site, built=none[0].effects, why='no body frame for an empty rest (and none at all for an empty body)')
             r.check('both-ok', tail[0].value_str() == 'Ok(())' and none[0].value_str() == 'Ok(())', site)
         rows2 = P.table(ctx, H0 + 'send_content_body', ['self', 'content'])
